@@ -305,7 +305,10 @@ def showWire (probes : List Bytes) (r : Loop.Req) : String :=
   "|".intercalate [showScheme r.url.scheme, encodeHex (dialAddr r.url), encodeHex r.url.path, encodeHex r.method,
     -- the lanes' TLS origins negotiate HTTP/2, the plain ones speak HTTP/1.1
     encodeHex (if r.url.scheme = .https then wireAuthority r else wireHost r), b01 r.body,
-    if probes.isEmpty then "." else "/".intercalate (probes.map fun k => encodeList (wireValues h k))]
+    if probes.isEmpty then "." else "/".intercalate (probes.map fun k =>
+      -- Cookie is compared pair by pair: its framing differs between HTTP/1.1 and HTTP/2
+      if Req.Ascii.canonicalMIMEHeaderKey k == hCookie then encodeList (cookieCrumbs (wireValues h k))
+      else encodeList (wireValues h k))]
 
 def decodeCfg (ps : List (Option Policy)) (s : String) : Option Config :=
   match s.toList with
